@@ -205,12 +205,15 @@ Record fixes := {
   fx_copy_key : bool;       (* _kvs[..].K receives a copy of the key *)
   fx_own_txid : bool;       (* the tombstone lookup uses txID+i, not txID *)
   fx_tomb_deleted : bool;   (* the tombstone is marked deleted also when the replaced entry has metadata *)
-  fx_kvs_cap : bool         (* _kvs has room for two items (entry + tombstone) per transaction entry *)
+  fx_kvs_cap : bool;        (* _kvs has room for two items (entry + tombstone) per transaction entry *)
+  fx_skip_dead_prev : bool  (* 10acf02: no tombstone (and no value read) when the previous version is itself a tombstone *)
 }.
 Definition cur_code : fixes :=
-  {| fx_copy_key := false; fx_own_txid := false; fx_tomb_deleted := false; fx_kvs_cap := false |}.
+  {| fx_copy_key := false; fx_own_txid := false; fx_tomb_deleted := false; fx_kvs_cap := false;
+     fx_skip_dead_prev := false |}.
 Definition all_fixed : fixes :=
-  {| fx_copy_key := true; fx_own_txid := true; fx_tomb_deleted := true; fx_kvs_cap := true |}.
+  {| fx_copy_key := true; fx_own_txid := true; fx_tomb_deleted := true; fx_kvs_cap := true;
+     fx_skip_dead_prev := true |}.
 
 Definition nth_tx (h : history) (id : N) : option tx :=
   if id =? 0 then None else nth_error h (N.to_nat (id - 1)).
@@ -265,6 +268,7 @@ Definition index_entry (fx : fixes) (s : ispec) (h : history) (tb : tbt)
               match find_entry (e_key e) pt with
               | None => Err ENotFound
               | Some pe =>
+                  if fx_skip_dead_prev fx && kv_deleted (e_md pe) then Ok [p1] else
                   let targetPrevKey := mapk (tmap s) sourceKey (e_val pe) in
                   if bytes_eqb targetKey targetPrevKey then Ok [p1] else
                   if negb (has_prefix targetPrevKey (tp s)) then Err EIllegalArguments else
